@@ -9,11 +9,15 @@ import math, re, sys
 from fractions import Fraction as F
 
 PROP = 'C20'
-LEAN_MODULES = ['XyzProofs.Props.C20', 'XyzProofs.Lemmas.FmtTotal']
+LEAN_MODULES = ['XyzProofs.Props.C20', 'XyzProofs.Lemmas.FmtTotal', 'XyzProofs.Refine.Fmt', 'XyzProofs.Props.C20Src']
 THEOREMS = ['Fmt.c20_round_spec', 'Fmt.c20_sci_spec', 'Fmt.c20_fixed_spec', 'Fmt.c20_E_le_one',
             'Fmt.c20_uncertainty', 'Fmt.c20_value', 'Fmt.c20_reads_back', 'Fmt.c20_sci_total', 'Fmt.c20_floorLog10',
-            'Fmt.c20_format_total']
-ANCHORS = ['fmtExp', 'fmtHide', 'fmtDigits']
+            'Fmt.c20_format_total',
+            # the hand-written model is the function body translated from the source (harness/anchors_numfn.py) ...
+            'Fmt.format_refines',
+            # ... and the property statements on the translated source
+            'Fmt.c20_src_total', 'Fmt.c20_src_reads_back', 'Fmt.c20_src_suffix']
+ANCHORS = ['fmtExp', 'fmtHide', 'fmtDigits', 'fmtNumberWithError']
 PARTIAL = {}
 RULE = ("each case = one (x, err) pair of binary64 floats: x of either sign with |x| in [1e-300, 1e300] or 0, err > 0 finite "
         "with err/|x| in [1e-12, 1e12] (for x = 0: any positive finite err); a deterministic boundary suite first (the D13 zone "
